@@ -828,7 +828,13 @@ impl Prop for SolvedProp {
         same("solved_doc:lost-by-parse".to_string(), "solver-written document (left) differs from ser(parse(it)) (right)", &written, &tree, false, stats, &text)?;
         stats.class("solved_doc.documents");
         if solution.extras.as_ref().is_some_and(|e| e.metrics.is_some()) { stats.class("solved_doc.with.metrics"); }
-        // (c) initial-solution round trip
+        // (c) initial-solution round trip. The reader matches activities by id, tag, location and time: a solution whose
+        // activities lie outside their time windows (a C01 matter, known defect families) cannot be matched and is left out
+        let verdict = super::refmodel::evaluate(&r.problem, &r.matrices, &solution, super::e2e::tolerance(&r.problem));
+        if verdict.findings.iter().any(|f| f.prop == super::refmodel::Prop::Feasibility && matches!(f.rule.as_str(), "time-window" | "time-window-start" | "shift-end" | "reachability")) {
+            stats.class("init.skipped.solution_infeasible_in_time_for_R");
+            return Ok(());
+        }
         stats.eval();
         if !init_round_trip(&core, &solution, &text, hash_of(&format!("{c:?}")), stats).map_err(with_problem)? { return Ok(()); }
         let assigned: BTreeSet<&String> = solution.tours.iter().flat_map(|t| t.stops.iter()).flat_map(|s| s.activities().iter()).filter(|a| is_customer(&a.activity_type)).map(|a| &a.job_id).collect();
